@@ -38,6 +38,7 @@ EXPLANATION = (
 EXPLANATION += (' R-C07-9: the look-up methods are functions of the constructor-built tables and their arguments: they write no attribute of self (no cached class indices or results) and read none written by another look-up.')
 EXPLANATION += (' R-C07-10: no table cache shared between Binned objects under a key that leaves out something the tables depend on (bin count), no caching decorator / unreset memo attribute on the class (memo rule, built-in positive examples).')
 EXPLANATION += (' R-C07-8: the look-up tables are built once in the constructor and never re-ordered afterwards.')
+EXPLANATION += (' R-C07-11: with per-point look-up tables the class of every point is searched in that point\'s own table (a search with the first point\'s load for all points returns, at a class edge, the neighbouring class for some points); open known finding in the four look-up methods.')
 ASSUMPTIONS = [
     "numpy/pandas searchsorted(side='left') returns p with a[p-1] < v <= a[p] on an ascending array",
     "the wrapped law is monotone (C06) so the table's load column is ascending",
@@ -173,6 +174,36 @@ def search_keys_exact(ctx):
                 raise AnalysisError("%s: search key %s not understood" % (fi.key, norm_text(k)[:80]))
     if n < 4:
         raise AnalysisError("fewer than 4 class searches found in the binned law")
+
+
+def first_point_searches(ctx):
+    """With per-point look-up tables every point has a table of its own, scaled by its own largest load.  The class of a load
+    has to be searched per point, in that point's table: a search with the load of ONE point (`load.iloc[0]`) in ONE point's
+    table, whose result selects the rows of all points, relies on all points falling into the same class - true in exact
+    arithmetic for proportional loads, but at a class boundary the rounding of `ratio * load` resolves differently per point,
+    and a point then gets the value of the neighbouring class (2 % in stress for 100 classes) depending on which point happens
+    to be the first of the batch."""
+    from ..astutil import inline_single_defs
+    prog = ctx.prog
+    ci, methods = lookup_methods(prog)
+    n = 0
+    for fi in methods:
+        params = [q for q in fi.params if q != "self"]
+        for c, seq, key, side in _searches(fi.node):
+            if key is None:
+                continue
+            k = inline_single_defs(fi.node, key)
+            single = [x for x in ast.walk(k) if isinstance(x, ast.Subscript) and const_value(x.slice) == 0 and
+                      any(isinstance(y, ast.Name) and y.id in params for y in ast.walk(x.value))]
+            if not single:
+                continue
+            n += 1
+            ctx.violated(fi, c, "%s: with per-point tables the class of ALL points is searched with the load of the first point (%s) "
+                         "in the first point's table; at a class boundary the points of a proportional batch round into different "
+                         "classes, so a point's result depends on which points it is assessed with" %
+                         (fi.name, norm_text(single[0])), text="class of all points searched with " + norm_text(single[0]))
+    if n == 0:
+        ctx.holds(ci.key, None, "no class search of the binned law uses the load of a single point for all points")
 
 
 def constructor_facts(ctx, ci):
@@ -367,6 +398,10 @@ def run(ctx):
     from .. import memo
     memo.check_keyed_caches(ctx, prog, [ci])
     memo.run_rule(ctx, classes=[ci])
+
+    # ---------------------------------------------------------- R-C07-11: per-point tables are searched per point
+    ctx.rule("R-C07-11", floor=1, what="per-point look-up tables: the class of every point is searched in that point's own table")
+    first_point_searches(ctx)
 
     # ---------------------------------------------------------- R-C07-9: look-ups are functions of (tables, arguments)
     ctx.rule("R-C07-9", floor=4, what="look-up methods keep no per-call state: no write to self, no read of state written by another look-up")
